@@ -206,6 +206,12 @@ func runC18Colour(c *Ctx) {
 			c.bad("detectCyclicNode|back edge", al.Pos(), "the reported edge is not from the visited node to a neighbour that is still active: the printed cycle is not a cycle of the graph")
 		}
 	})
+	// every neighbour is examined: the loop over them is left early only with a cycle
+	if leaks := searchLoopLeaks(p, fn); len(leaks) == 0 {
+		c.ok("detectCyclicNode|every neighbour examined", fn.Pos(), "the loop over the neighbours is left before its end only by returning a cycle")
+	} else {
+		c.bad("detectCyclicNode|every neighbour examined", fn.Pos(), strings.Join(leaks, "; ")+": the remaining neighbours are never looked at, a cycle through them is missed")
+	}
 	// (d) the search starts from new nodes only, and propagates the first cycle
 	for _, call := range findCalls(first, "detectCyclicNode") {
 		arg := call.Common().Args[0]
@@ -305,6 +311,12 @@ func runC18Cycle(c *Ctx) {
 		c.ok("collectCycle|path recorded before descending", add.Pos(), "edges[src] = dest dominates the recursion: every node of the path is a key, so the depth is bounded by the number of nodes")
 	} else {
 		c.bad("collectCycle|path recorded before descending", fn.Pos(), "the edge is not recorded before descending")
+	}
+	// every neighbour is tried: the loop over them is left early only when the cycle was closed
+	if leaks := searchLoopLeaks(p, fn); len(leaks) == 0 {
+		c.ok("collectCycle|every neighbour tried", fn.Pos(), "the loop over the neighbours is left before its end only by returning true")
+	} else {
+		c.bad("collectCycle|every neighbour tried", fn.Pos(), strings.Join(leaks, "; ")+": the neighbour that continues the cycle is never tried when an earlier one is left over from a finished search, and the collected path does not close")
 	}
 	del := false
 	eachInstr(fn, func(_ *ssa.BasicBlock, _ int, in ssa.Instruction) {
